@@ -160,6 +160,13 @@ def leaderless_scenarios(logs, rnd, nlogs):
                 if close_sibling:
                     steps += [{"op": "close_pc", "part": 1}, {"op": "close_pc_again", "part": 1}]
                 steps += [{"op": "move", "part": 0, "to": 1}]
+                # data produced after the election: the sibling (if still open) and the recovered partition must deliver it
+                end = log_end(log)
+                fmt = log[-1]["fmt"].rstrip("w")
+                more = [{"fmt": fmt, "offs": [end, end + 1], "pid": -1, "txn": False, "ctl": ""}]
+                steps += [{"op": "sleep", "ms": 15}, {"op": "append", "part": 0, "batches": more}]
+                if not close_sibling:
+                    steps += [{"op": "append", "part": 1, "batches": more}]
                 out.append({"name": "leaderless-%d-%s-%dms" % (i, "closesib" if close_sibling else "keep", ms), "family": "leaderless",
                             "cfg": cfg, "logs": {"0": lg0, "1": lg1},
                             "fetchPlans": {"0:2": {"kind": "err", "code": 6}, "0:3": {"kind": "err", "code": 6}},
